@@ -1,13 +1,28 @@
-import TinsModel.Wire.App.Family
-import TinsModel.Basic.CursorLemmas
-import TinsModel.Basic.CodecLemmas
-import TinsModel.Wire.ChainLemmas
-import TinsModel.Wire.IfaceLemmas
+import TinsModel.Wire.App.TheoremsFixed
+import TinsModel.Wire.App.TheoremsRtp
+import TinsModel.Wire.App.TheoremsRtpReparse
+import TinsModel.Wire.App.TheoremsRtpApi
+import TinsModel.Wire.App.TheoremsDhcp
+import TinsModel.Wire.App.TheoremsDhcpv6
+import TinsModel.Wire.App.TheoremsCodec
+import TinsModel.Wire.App.TheoremsReparse
+import TinsModel.Wire.App.TheoremsApi
+import TinsModel.Wire.App.TheoremsOptApi
+import TinsModel.Wire.App.TheoremsExamples
 /-
-  Per-layer theorems of the App family for the four wire properties (C01 parse_safe, C02 writesOnly,
-  C03 reparse, C04 codec inverses).  See TinsModel/Wire/Transport/Theorems.lean for the worked example (UDP).
+  Per-layer theorems of the App family for the four wire properties (C01 parse_safe, C02 writesOnly, C03 reparse,
+  C04 codec inverses).  This module only gathers the per-class files (it is what `Props/C01..C04` import):
+    TheoremsFixed   — ARP, VXLAN, STP, BootP (fixed headers)
+    TheoremsRtp     — RTP (CSRC list, extension header, padding trailer)
+    TheoremsRtpReparse — C03 for RTP
+    TheoremsRtpApi  — RTP setters keep the invariant (C02 for API histories)
+    TheoremsDhcp    — DHCP (TLV options, cached `size_`)
+    TheoremsDhcpv6  — DHCPv6 (TLV options, cached `options_size_`)
+    TheoremsReparse — C03: TLV round trips of DHCP / DHCPv6 option lists, write → parse end to end; DHCPv6 invariant
+    TheoremsApi     — C02/C04 for API histories of the fixed-header classes: setters keep the invariant, getters read
+                      back the last value set, other members untouched
+    TheoremsOptApi  — DHCP / DHCPv6 / BootP: every modelled public call keeps the invariant
+    TheoremsExamples — non-vacuity: concrete non-trivial inputs/states satisfying the theorems' hypotheses
+    TheoremsCodec   — C04: option look-up after add/remove, typed option codecs of DHCP and DHCPv6
+  Every theorem is listed with `#print axioms` in lean/Audit/WireApp.lean.
 -/
-namespace Tins.Wire.App
-open Tins Tins.Wire
-
-end Tins.Wire.App
